@@ -1043,3 +1043,60 @@ func ruleBitListLen(c *Ctx) {
 func init() {
 	register("C18", ruleBitListLen)
 }
+
+// The image accessors (K2-K5: At reads the bit the encoder set, bounds, metadata, content) are what a
+// reader of the symbol sees: they are necessary conditions of every round-trip property as well.
+func init() {
+	for _, p := range []string{"C01", "C02", "C03", "C04", "C05", "C06", "C07", "C08"} {
+		register(p, ruleImageMethods)
+	}
+}
+
+// Z9: the code-set look-ahead answers "use set A" only on evidence about the characters.
+func ruleC128LookaheadEvidence(c *Ctx) {
+	const R = "Z9-C128-LOOKAHEAD-EVIDENCE"
+	c.Doc(R, "code128.shouldUseATable / shouldUseCTable: every path that answers true has tested the upcoming characters (a positive table-membership or digit test lies on the path); the current code set alone never decides - a character that set A cannot express must not be routed to set A because the encoder happens to be in A")
+	c.Floor(R, 1)
+	for _, name := range []string{"code128.shouldUseATable", "code128.shouldUseCTable"} {
+		fn := c.P.Func(name)
+		if fn == nil || len(fn.Params) < 1 {
+			continue
+		}
+		c.Fn(name)
+		n := NewNormer(c.P)
+		n.BindParams(fn, "next", "cur")
+		k := 0
+		for _, ret := range returnsOf(fn) {
+			reach := n.ReachCond(fn, nil, ret.Block())
+			for _, cs := range n.valueCases(fn, nil, ret.Results[0], 0) {
+				if kv, ok := cs.val.IsConst(); (!ok || kv != 1) && cs.val.String() != "const:true" {
+					continue
+				}
+				k++
+				cond := cAnd(reach, cs.cond)
+				cv := &condVars{bases: map[string]map[int64]bool{}, bools: map[string]bool{}}
+				collect(cond, cv)
+				evidence := false
+				for b := range cv.bools {
+					if strings.Contains(b, "next") || strings.Contains(b, "Rune") {
+						evidence = true
+					}
+				}
+				for b := range cv.bases {
+					if strings.Contains(b, "next") {
+						evidence = true
+					}
+				}
+				c.Check(R, fmt.Sprintf("%s/true#%d", name, k), ret.Pos(), evidence, "a test of the upcoming characters on the path", cond.String())
+			}
+		}
+		if k == 0 {
+			c.Check(R, name+"/true", fn.Pos(), true, "answers true only as the value of a character test", "no constant true")
+		}
+	}
+}
+
+func init() {
+	register("C05", ruleC128LookaheadEvidence)
+	register("C10", ruleC128LookaheadEvidence)
+}
